@@ -73,7 +73,7 @@ function probesFor(rng, visible, ctxTag) {
     const asText = rng.bool(0.25)
     const mixed = rng.bool(0.2)
     if (asText) out.push({ t: 'el', tag: 'q', attrs: [], children: [{ t: 'text', v: mixed ? M.mv('[', e, ']') : M.ev(e) }], probe: { n, form: tag, ctxTag, where: mixed ? 'mixed-text' : 'text' } })
-    else out.push({ t: 'el', tag: 'p', attrs: [{ fam: rng.pick(['plain', 'data:', 'mark', 'class', 'id']), name: 'v', value: mixed ? M.mv('[', e, ']') : M.ev(e) }], children: [], probe: { n, form: tag, ctxTag, where: mixed ? 'mixed-attr' : 'attr' } })
+    else out.push({ t: 'el', tag: 'p', attrs: [{ fam: rng.pick(['plain', 'data:', 'mark', 'class', 'id', 'slot']), name: 'v', value: mixed ? M.mv('[', e, ']') : M.ev(e) }], children: [], probe: { n, form: tag, ctxTag, where: mixed ? 'mixed-attr' : 'attr' } })
   }
   return out
 }
@@ -85,11 +85,11 @@ function listLiteral(rng, tagStr) {
   return X.arr([{ k: 'v', e: X.bin('+', X.str(tagStr + '.0:'), X.id(n1)) }, { k: 'v', e: X.bin('+', X.str(tagStr + '.1:'), X.id(n2)) }])
 }
 
-function genScopeNodes(rng, depth, inComp, stats) {
+function genScopeNodes(rng, depth, inComp, stats, noTref = false) {
   const nodes = []
   const count = rng.range(1, 3)
   for (let i = 0; i < count; i++) {
-    const r = rng.int(10)
+    const r = noTref ? rng.int(9) : rng.int(10)
     if (r < 3 || depth <= 0) { nodes.push(...probesFor(rng)); continue }
     if (r < 8) {
       const id_ = ++forCounter
@@ -98,7 +98,7 @@ function genScopeNodes(rng, depth, inComp, stats) {
       let index = rng.bool(0.5) ? rng.pick(NAMES) : undefined
       // the same name for item and index is legal: `index` is introduced after `item`, so it wins (kept in half of the collisions)
       if ((index ?? 'index') === (item ?? 'item') && rng.bool(0.5)) index = index === undefined ? undefined : (item ?? 'item') === 'b' ? 'x' : 'b'
-      const body = genScopeNodes(rng, depth - 1, false, stats)
+      const body = genScopeNodes(rng, depth - 1, false, stats, noTref)
       const cond = rng.bool(0.2) ? M.ev(X.id(rng.pick(NAMES))) : null
       const wrapper = rng.bool(0.5) ? { t: 'block', children: body } : { t: 'el', tag: 'w', attrs: [{ fam: 'plain', name: 'v', value: M.ev(X.id(rng.pick(NAMES))) }], children: body }
       nodes.push({ t: 'for', list: M.ev(listLiteral(rng, 'F' + id_)), item, index, key: rng.bool(0.3) ? '*this' : undefined, cond, node: wrapper })
@@ -106,10 +106,10 @@ function genScopeNodes(rng, depth, inComp, stats) {
       continue
     }
     if (r < 9) {
-      nodes.push({ t: 'if', branches: [{ cond: M.ev(X.id(rng.pick(NAMES))), node: { t: 'block', children: genScopeNodes(rng, depth - 1, false, stats) } }], els: { t: 'block', children: probesFor(rng) } })
+      nodes.push({ t: 'if', branches: [{ cond: M.ev(X.id(rng.pick(NAMES))), node: { t: 'block', children: genScopeNodes(rng, depth - 1, false, stats, noTref) } }], els: { t: 'block', children: probesFor(rng) } })
       continue
     }
-    nodes.push({ t: 'tref', is: M.sv('t1'), data: X.obj([{ k: 'kv', name: 'a', e: X.bin('+', X.str('T:'), X.id(rng.pick(NAMES))) }, ...(rng.bool(0.5) ? [{ k: 'short', name: rng.pick(NAMES) }] : [])]) })
+    nodes.push({ t: 'tref', is: M.sv(rng.pick(['t1', 't1', 't2'])), data: X.obj([{ k: 'kv', name: 'a', e: X.bin('+', X.str('T:'), X.id(rng.pick(NAMES))) }, ...(rng.bool(0.5) ? [{ k: 'short', name: rng.pick(NAMES) }] : [])]) })
     stats.trefs++
   }
   return nodes
@@ -128,7 +128,8 @@ export function genCase(rng) {
     const decl = { module: extName, src: rng.pick(['/s/ext', './s/ext.wxs', 's/ext']) }
     if (rng.bool(0.7)) wxs.push(decl); else wxs.unshift(decl)
   }
-  const defs = [{ name: 't1', children: probesFor(rng) }]
+  // a second definition with loops of its own: every `<template name>` body starts from the module scopes of the file
+  const defs = [{ name: 't1', children: probesFor(rng) }, { name: 't2', children: genScopeNodes(rng, 2, false, stats, true) }]
   let children = genScopeNodes(rng, 3, false, stats)
   // slot-value scopes: direct children of the dynamic-slots component
   let withComp = rng.bool(0.4)
